@@ -77,7 +77,7 @@ abbrev St := List Wire
 inductive Err
   | index   -- IndexError
   | value   -- ValueError (`max`/`min` of an empty sequence)
-  | type    -- TypeError (`len(None)`: a gate without targets, e.g. GLOBALPHASE)
+  | type    -- TypeError (`len(None)`: a gate without targets, e.g. GLOBALPHASE; `None + int`: a measurement without classical_store)
 deriving DecidableEq, Repr
 
 /-- The style options the text renderer reads.  `gate_pad = padNum / padDen` (a rational
@@ -100,12 +100,18 @@ def Style.pad (s : Style) : Nat := ((s.padNum + (s.padDen : Int) - 1) / (s.padDe
 * `insideNode` (fixes/C20-2): a control strictly inside the span of the targets gets its node `█`
   in the box, at the link column.
 * `globalBox` (fixes/C20-3): a gate without targets and controls (`GLOBALPHASE`) is drawn as a box
-  over all qubits instead of raising `TypeError`. -/
+  over all qubits instead of raising `TypeError`.
+* `measBox` (fixes/C20-4): a measurement without `classical_store` (its result is not stored) is
+  drawn as the box `M` on its target(s), without a link, instead of raising `TypeError`. -/
 structure Variant where
   spanFix : Bool := false
   insideNode : Bool := false
   globalBox : Bool := false
+  measBox : Bool := false
 deriving DecidableEq, Repr
+
+/-- the tree with all four repairs (fixes/C20-1 … C20-4) -/
+def Variant.repaired : Variant := { spanFix := true, insideNode := true, globalBox := true, measBox := true }
 
 /-- A circuit element as the renderer sees it. -/
 inductive Op
@@ -115,6 +121,8 @@ inductive Op
   | meas (targets : List Nat) (store : Nat)
   /-- `Gate` with `targets = None` and `controls = None` (`GLOBALPHASE`): `name`, `arg_label` -/
   | glob (name : Str) (argLabel : Option Str)
+  /-- `Measurement` with `classical_store = None` (the result is not stored): `targets` -/
+  | measNS (targets : List Nat)
 deriving DecidableEq, Repr
 
 structure Circ where
@@ -380,6 +388,18 @@ def plan (v : Variant) (p N C : Nat) : Op → Except Err Plan
   | .glob name argLabel =>
     -- shipped: `len(gate.targets)` with `targets = None`; repaired: a box over all the qubits
     if v.globalBox then planGate v p name argLabel (List.range N) none else .error .type
+  | .measNS targets =>
+    if v.measBox then
+      -- repaired: `wire_list = gate.targets`, the box of `_draw_singleq_gate("M")` on every target, no bridge
+      if targets.isEmpty then .error .value                 -- `max(())` for the layer
+      else
+        let g := drawSingleq p ['M']
+        .ok { wl := targets, width := g.top.length, acts := updSingleq targets g }
+    else
+      -- shipped: `gate.targets[0]`, then `gate.classical_store + self._qwires` with `None`
+      match targets with
+      | [] => .error .index
+      | _ :: _ => .error .type
 
 /-- "update the render strings for the gate" -/
 def place (align : Bool) (N : Nat) (pl : Plan) (st : St) : St :=
